@@ -163,22 +163,28 @@ func VerifC18Update() {
 	type local struct{ id, host string }
 	var locals []local
 	for i := 0; i < nLocal; i++ {
-		k := verifapi.Choose(fmt.Sprint("local", i), 6) // 0 = absent
+		k := verifapi.Choose(fmt.Sprint("local", i), 7) // 0 = absent
 		if k == 0 {
 			continue
 		}
 		// local peers as the node reports them: id + remote address; newer nodes report a hash as id
 		// and the node id (public key) inside a separate enode field
-		shape := []struct{ id, addr, host, hash string }{
-			{verifapi.NodeID(1), "192.0.2.1:30303", "192.0.2.1", ""},
-			{verifapi.NodeID(1), "192.0.2.2:51000", "192.0.2.2", ""},
-			{verifapi.NodeID(2), "192.0.2.1:30303", "192.0.2.1", ""},
-			{verifapi.NodeID(3), "[2001:db8::1]:30303", "2001:db8::1", ""},
-			{verifapi.NodeID(2), "192.0.2.1:30303", "192.0.2.1", "6f8a1c2e5d9b3a7f4e0c1d2b3a4f5e6d7c8b9a0f1e2d3c4b5a69788796a5b4c3"},
+		// (the address inside that field is what the peer advertises about itself, which need not be the address
+		// it is connected from: the connection's address is the one that counts)
+		shape := []struct{ id, addr, host, hash, adv string }{
+			{verifapi.NodeID(1), "192.0.2.1:30303", "192.0.2.1", "", ""},
+			{verifapi.NodeID(1), "192.0.2.2:51000", "192.0.2.2", "", ""},
+			{verifapi.NodeID(2), "192.0.2.1:30303", "192.0.2.1", "", ""},
+			{verifapi.NodeID(3), "[2001:db8::1]:30303", "2001:db8::1", "", ""},
+			{verifapi.NodeID(2), "192.0.2.1:30303", "192.0.2.1", "6f8a1c2e5d9b3a7f4e0c1d2b3a4f5e6d7c8b9a0f1e2d3c4b5a69788796a5b4c3", ""},
+			{verifapi.NodeID(1), "192.0.2.1:30303", "192.0.2.1", "7a8a1c2e5d9b3a7f4e0c1d2b3a4f5e6d7c8b9a0f1e2d3c4b5a69788796a5b4c3", "192.0.2.2:30303"},
 		}[k-1]
 		pi := ethnode.PeerInfo{ID: shape.id}
 		if shape.hash != "" {
 			pi.ID, pi.Enode = shape.hash, "enode://"+shape.id+"@"+shape.addr
+			if shape.adv != "" {
+				pi.Enode = "enode://" + shape.id + "@" + shape.adv
+			}
 		}
 		pi.Network.RemoteAddress = shape.addr
 		node.peers = append(node.peers, pi)
